@@ -31,7 +31,8 @@ std::vector<std::string> split(const std::string &s, char sep) {
 
 RoutingKey make_key(const std::string &pat) {
     RoutingKeyBuilder b;
-    for (auto &lv : split(pat, '/')) {
+    for (auto lv : split(pat, '/')) {
+        if (lv == "~") lv = "";   // an empty level
         if (lv.rfind("r:", 0) == 0) {
             if (lv == "r:.*") b.all();   // the documented wildcard helper
             else b.level(std::regex(lv.substr(2)));
@@ -146,8 +147,8 @@ void run_typed(const Execution &ex) {
     if (ex.cfg.num("table", 0)) {
         std::string s = "\"e\":\"MatchTable\",\"t\":{";
         bool first = true;
-        for (const char *re : {".*", "a", "a|b", "[^a]", "c", "a|ab", "a.*?"})
-            for (const char *name : {"a", "b", "c", "ab"}) {
+        for (const char *re : {".*", "a", "a|b", "[^a]", "c", "a|ab", "a.*?", ".+"})
+            for (const char *name : {"a", "b", "c", "ab", ""}) {
                 if (!first) s += ",";
                 first = false;
                 std::string n(name);
